@@ -36,40 +36,54 @@ ITER_METHODS = r"iter|iter_mut|keys|values|values_mut|into_iter|into_keys|into_v
 # (file basename, fn, normalised line) -> (class, why)
 N, O = "not-observable", "observable"
 TABLE = {
-    ("packages.rs", "topo_sort_packages", "let mut names: Vec<String> = graph.packages.keys().cloned().collect();"):
+    # ---- pipeline/packages.rs
+    ("packages.rs", "topo_sort_packages", "graph.packages.keys().cloned().collect();"):
         (N, "sorted on the next line (`names.sort()`)"),
-    ("packages.rs", "visit_package", "let mut deps: Vec<String> = package.imports.iter().cloned().collect();"):
-        (N, "`imports` is a BTreeSet since the C13 fix; sorted on the next line as well"),
-    ("pipeline.rs", "typecheck_packages", "let mut package_names: Vec<String> = graph.packages.keys().cloned().collect();"):
+    ("packages.rs", "discover_packages_with_layout", "entry_package.imports.iter().cloned().collect();"):
+        (O, "seeds the discovery work list: with a HashSet the discovery order follows the hash seed "
+            "(fixed: `imports` is a BTreeSet, the site no longer shows up)"),
+    ("packages.rs", "discover_packages_with_layout", "queue.extend(package.imports.iter().cloned());"):
+        (O, "extends the discovery work list (fixed: BTreeSet)"),
+    ("packages.rs", "visit_package", "package.imports.iter().cloned().collect();"):
+        (N, "sorted on the next line"),
+    ("packages.rs", "collect_imports", "file.ast.imports.iter()"):
+        (N, "`ast::File.imports` is a Vec (name collision with the set-valued field); collected into a set"),
+    # ---- pipeline/pipeline.rs
+    ("pipeline.rs", "typecheck_packages", "graph.packages.keys().cloned().collect();"):
         (N, "sorted on the next line before ids are assigned"),
-    ("pipeline.rs", "typecheck_packages", "let mut deps: Vec<_> = package.imports.iter().cloned().collect();"):
-        (N, "sorted on the next line"),
-    ("pipeline.rs", "compile", "let mut deps: Vec<_> = package.imports.iter().cloned().collect();"):
-        (N, "sorted on the next line"),
-    ("pipeline.rs", "typecheck_with_packages_and_results", "let mut package_names: Vec<String> = graph.packages.keys().cloned().collect();"):
+    ("pipeline.rs", "typecheck_with_packages_and_results", "graph.packages.keys().cloned().collect();"):
         (N, "sorted on the next line before ids are assigned"),
-    ("pipeline.rs", "typecheck_with_packages_and_results", "let mut deps: Vec<_> = package.imports.iter().cloned().collect();"):
-        (N, "sorted on the next line"),
-    ("separate.rs", "check_package", "let mut deps: Vec<String> = imports.into_iter().collect();"):
-        (N, "sorted and deduplicated on the next two lines"),
-    ("separate.rs", "build_package", "let mut deps: Vec<String> = imports.into_iter().collect();"):
-        (N, "sorted and deduplicated on the next two lines"),
-    ("separate.rs", "link_cores", "let mut names = by_name.keys().cloned().collect::<Vec<_>>();"):
-        (N, "sorted on the next line"),
-    ("hir.rs", "lower_to_project_hir_files_with_env", "let mut other_packages: Vec<PackageName> = grouped .keys()"):
-        (N, "collected then `sort_by` name"),
-    ("hir.rs", "resolve_constructor_path", "let matches: Vec<ConstructorId> = full_name_index .iter()"):
-        (N, "only `matches.len()` and, when it is 1, the single element are used; with >1 matches the candidate "
-            "list is stored in `ConstructorResolutionErrorKind::Ambiguous` but no diagnostic prints it "
-            "(name_resolution.rs reports only the path) — K-fold diagnostics comparison covers it"),
-    ("toplevel.rs", "define_trait_impl", "let trait_method_names: HashSet<String> = trait_def.methods.keys().cloned().collect();"):
-        (N, "iterates an IndexMap (`methods`) into a set used for membership only"),
-    ("name_resolution.rs", "resolve_files", ".collect::<HashSet<_>>();"):
-        (N, "builds a set from a Vec; the set is used for membership (`package_allowed`) only"),
-    ("dce.rs", "eliminate_dead_vars_in_block", "live.extend(cond_uses);"):
-        (N, "set union into the liveness set; only membership is queried"),
-    ("dce.rs", "eliminate_dead_vars_in_block", "live.extend(then_live_in);"): (N, "set union"),
-    ("dce.rs", "eliminate_dead_vars_in_block", "live.extend(else_live_in);"): (N, "set union"),
+    ("pipeline.rs", "", "package.imports.iter().cloned().collect();"):
+        (N, "sorted on the next line (`deps.sort()`)"),
+    # ---- pipeline/separate.rs
+    ("separate.rs", "read_source_files", "for import in ast.imports.iter() {"):
+        (N, "`ast::File.imports` is a Vec; inserted into a set"),
+    ("separate.rs", "check_package", "imports.into_iter().collect();"): (N, "sorted and deduplicated on the next two lines"),
+    ("separate.rs", "build_package", "imports.into_iter().collect();"): (N, "sorted and deduplicated on the next two lines"),
+    ("separate.rs", "link_cores", "for (pkg, unit) in by_name.iter() {"):
+        (O, "the first stale / missing dependency found is the one reported (fixed: walked in name order)"),
+    ("separate.rs", "link_cores", "= by_name.iter().collect();"): (N, "sorted by name on the next line"),
+    ("separate.rs", "topo_sort", "for name in cores.keys() {"): (N, "fills BTreeMaps"),
+    ("separate.rs", "topo_sort", "cores.keys().cloned().collect();"): (N, "sorted on the next line"),
+    # ---- hir.rs
+    ("hir.rs", "lower_to_project_hir_files_with_env", "= grouped .keys()"): (N, "collected then `sort_by` name"),
+    ("hir.rs", "resolve_constructor_path", "= full_name_index .iter()"):
+        (N, "only `matches.len()` and, when it is 1, the single element are used; with >1 matches the candidate list is "
+            "stored in `ConstructorResolutionErrorKind::Ambiguous` but no diagnostic prints it"),
+    # ---- typer
+    ("toplevel.rs", "define_trait_impl", "for method_name in trait_method_names.iter() {"):
+        (O, "one diagnostic per missing method, in set order (fixed: iterates the trait's IndexMap)"),
+    ("name_resolution.rs", "new_with_deps", "for (package, interface) in deps {"):
+        (N, "fills `enums_by_package` (nested maps and sets) which is only queried by key"),
+    ("name_resolution.rs", "resolve_files_with_env", ".imports .iter()"):
+        (N, "`ast::File.imports` is a Vec (name collision with `ResolutionContext.imports`)"),
+    # ---- go/dce.rs
+    ("dce.rs", "dce_block_with_live", "for u in &used_rhs {"): (N, "inserts into the liveness set"),
+    ("dce.rs", "dce_block_with_live", "live.extend(cases_live_in);"): (N, "set union"),
+    ("dce.rs", "add_uses_expr", "for u in vars_used_in_expr(e) {"): (N, "inserts into the liveness set"),
+    ("dce.rs", "prune_dead_functions", "= fn_map.keys().cloned().collect();"): (N, "set of names, membership only"),
+    ("dce.rs", "prune_dead_functions", "for callee in called_functions_in_fn(f, &fn_names) {"):
+        (N, "pushes on a work stack; only the reachable *set* is used and the output keeps the original item order"),
 }
 
 
@@ -160,7 +174,7 @@ def scan_file(repo, rel):
 def classify(site):
     base, fn, norm = site["key"]
     for (b, f, t), (cls, why) in TABLE.items():
-        if b == base and f == fn and (norm == t or norm.startswith(t) or t in norm):
+        if b == base and f in (fn, "") and t in norm:
             return cls, why
     return "unclassified", "not in tools/hashiter.py TABLE"
 
